@@ -229,6 +229,7 @@ class Lib:
                     yield st, Raise(mk_exc(st, "AttributeError", "'float' object has no attribute '%s'" % name))
                     return
             raise Unsupported("method %s.%s" % (k, name))
+        V.audit_kwargs(f, "%s.%s" % (k, name), kwargs)
         yield from f(ip, st, recv, args, kwargs)
 
     # ---------------------------------------------------------------- comprehension / with
@@ -499,6 +500,7 @@ def with_materialised_args(f):
                 yield s1, acc
             else:
                 yield from f(ip, s1, acc, kwargs)
+    g.__wrapped__ = f
     return g
 
 
@@ -507,6 +509,7 @@ def _mk_type(name):
         if name not in TYPE_CTORS:
             raise Unsupported("%s(...) is not modelled" % name)
         f = TYPE_CTORS[name]
+        V.audit_kwargs(f, name, kwargs)
         if name in GENEXP_CONSUMERS:
             f = with_materialised_args(f)
         return f(ip, st, args, kwargs)
